@@ -357,7 +357,13 @@ class Worker:
                 continue
             if st is not None:
                 result["subs"].append(st.to_json())
-        for i, sub in enumerate(getattr(self.mod, "SUBS", [])):
+        subs = list(enumerate(getattr(self.mod, "SUBS", [])))
+        # rotate the order per shard: under CPU contention (soft deadline) every
+        # sub-check is then still covered by some shards instead of the last ones starving
+        if subs:
+            k = self.shard % len(subs)
+            subs = subs[k:] + subs[:k]
+        for i, sub in subs:
             if only and sub.name != only:
                 continue
             try:
